@@ -128,6 +128,11 @@ def lean_errors(out):
     errs = []
     for m in re.finditer(r'^(?:error: )?(\S+\.lean):(\d+):(\d+): error[^:]*: (.*)$', out, re.M):
         errs.append({'file': m.group(1), 'line': int(m.group(2)), 'msg': m.group(4)[:300]})
+    # lake's own rendering: "error: <file>:<line>:<col>: <message>"
+    for m in re.finditer(r'^error: (\S+\.lean):(\d+):(\d+): (?!error)(.*)$', out, re.M):
+        e = {'file': m.group(1), 'line': int(m.group(2)), 'msg': m.group(4)[:300]}
+        if not any(x['file'] == e['file'] and x['line'] == e['line'] for x in errs):
+            errs.append(e)
     return errs
 
 
